@@ -448,6 +448,101 @@ def odd_requests(d, which):
     d.reach()
 
 
+class LearningDevice(Device):
+    """a device whose application records the I-Am announcements it hears (DeviceInfoCache.iam_device_info)"""
+
+    def do_IAmRequest(self, apdu):
+        self.deviceInfoCache.iam_device_info(apdu)
+
+
+@meta(bounds="a device that has cached the requesting station's I-Am (max APDU 50 or 1024, each of the four segmentation values, "
+             "symbolic); that station then sends a request whose header says what it likes - segmented-response-accepted flag "
+             "and max-response code symbolic - and whose outcome is an acknowledgement with data (ReadProperty), an error "
+             "(WriteProperty to a read-only property) or a reject (WriteProperty without a value), symbolic: exactly one reply; "
+             "the same request again is answered again; the device stays clean and healthy",
+      outside="requests that need a segmented answer (long_answer)",
+      stubs=STUBS)
+def known_client(d):
+    w = World()
+    lan = nl.FaultLAN([], world=w)
+    dev = LearningDevice(nl.make_device("dut", 20), lan)
+    av = AnalogValueObject(objectIdentifier=("analogValue", 1), objectName="av1", presentValue=72.5,
+                           statusFlags=[0, 0, 0, 0], units="degreesFahrenheit")
+    dev.add_object(av)
+    peer = nl.RawPeer(PEER, lan)
+    size = d.pick([50, 1024], 'announced_max_apdu')
+    seg = d.int(0, 3, 'announced_segmentation')
+    peer.send(dev.address, nl.frame(bytes([0x10, 0x00, 0xC4, 0x02, 0x00, 0x00, PEER, 0x22, size >> 8, size & 255,
+                                           0x91, seg, 0x21, 0x0F]), False))
+    w.run()
+    if dev.deviceInfoCache.get_device_info(peer.address) is None:
+        raise Violation("i-am-not-learned")
+    sa = d.bool('sa')
+    maxresp = d.int(0, 5, 'maxresp')
+    what = d.pick(["read", "write-denied", "write-no-value"], 'request')
+    inv = 0x51
+    hdr = bytes([0x02 if sa else 0x00, 0x40 + maxresp, inv])
+    body = {"read": bytes([0x0C, 0x0C, 0x00, 0x80, 0x00, 0x01, 0x19, 0x55]),
+            "write-denied": bytes([0x0F, 0x0C, 0x00, 0x80, 0x00, 0x01, 0x19, 0x4D, 0x3E, 0x75, 0x02, 0x00, 0x78, 0x3F]),
+            "write-no-value": bytes([0x0F, 0x0C, 0x00, 0x80, 0x00, 0x01, 0x19, 0x55, 0x3E, 0x3F])}[what]
+    for attempt in (1, 2):
+        n0 = len(peer.received)
+        peer.send(dev.address, nl.frame(hdr + body, True))
+        w.run()
+        rs = replies(peer, n0)
+        mine = [x for x in rs if x["invoke"] == inv and x["type"] in REPLY_TYPES]
+        if len(mine) != 1 or len(rs) != 1:
+            d.flag(True, "not-exactly-one-reply", n=len(mine), replies=len(rs), attempt=attempt, request=what, sa=bool(sa),
+                   announced=[size, seg], logged=[e[1] for e in d.errors_logged()])
+    check_health(d, w, lan, dev, peer, "known-client")
+    d.reach()
+
+
+@meta(bounds="two stations use the SAME invoke ID at the same time: the first asks for the 64-character object name with a 50-octet "
+             "limit (a segmented answer: it acknowledges segment by segment), the second sends a plain ReadProperty while the "
+             "first transfer is under way (after a symbolic number 0..1 of acknowledged segments, of two): the second gets its own "
+             "answer at once, the first transfer runs to its end with the right octets",
+      outside="more than two stations",
+      stubs=STUBS)
+def same_id_clients(d):
+    w, lan, dev, peer, av = _named_world("segmentedBoth")
+    other = nl.RawPeer(PEER + 1, lan)
+    inv = 0x42
+    peer.send(dev.address, nl.frame(bytes([0x02, 0x00, inv, 0x0C, 0x0C, 0x00, 0x80, 0x00, 0x01, 0x19, 0x4D]), True))
+    w.run(until=w.clock)
+    after = d.int(0, 1, 'acknowledged_before_the_second_request')
+    got = b""
+    seen = 0
+    asked = False
+    for step in range(12):
+        segs = [x for x in replies(peer)[seen:] if x["type"] == 3]
+        seen = len(replies(peer))
+        if step == after and not asked:
+            asked = True
+            other.send(dev.address, nl.frame(read_pv(inv), True))
+            w.run(until=w.clock)
+            ro = replies(other)
+            if len(ro) != 1 or ro[0]["type"] != 3 or ro[0]["invoke"] != inv or bytes(ro[0]["payload"]) != PV_ACK_BODY:
+                raise Violation("second-client-not-answered", got=[(x["type"], x["invoke"]) for x in ro], after=after)
+            segs += [x for x in replies(peer)[seen:] if x["type"] == 3]
+            seen = len(replies(peer))
+        if not segs:
+            break
+        for x in segs:
+            got += bytes(x["payload"])
+        peer.send(dev.address, nl.frame(bytes([0x40, inv, segs[-1]["seq"], 0x01]), False))
+        w.run(until=w.clock)
+        if not segs[-1]["mor"]:
+            break
+    name = bytes(LONG_NAME, "ascii")
+    if name not in got or len(replies(other)) != 1:
+        raise Violation("first-transfer-disturbed", octets=len(got), second_replies=len(replies(other)), after=after)
+    w.run()
+    if nl.residue(dev) or not w.idle():
+        raise Violation("leftover-transaction", residue=nl.residue(dev), after="same-id-clients")
+    d.reach()
+
+
 @meta(bounds="garbage that claims to be relayed from a remote network: station G sends a frame whose NPCI names source "
              "network 5 (SADR 7) followed by a concrete first APDU octet and 0..n symbolic octets (or nothing); "
              "then the real router R relays a valid ReadProperty from network 5 (from station 7 or 9); order of the two symbolic",
@@ -639,7 +734,7 @@ def instances(tier):
     # concrete: a class looked up by a symbolic key cannot be instantiated by the engine)
     out.append(Inst(layer_noise, dict(n=2 if q else 3, first=None), budget=80 if q else 600))
     out.append(Inst(layer_noise, dict(n=2 if q else 4, first=[1, 0x00]), budget=80 if q else 900, label="apdu-area,local"))
-    for t in ((0x00, 0x01, 0x13, 0x14) if q else (0x00, 0x01, 0x02, 0x03, 0x06, 0x08, 0x12, 0x13, 0x14, 0x7F, 0x80)):
+    for t in ((0x00, 0x01, 0x02, 0x03, 0x12, 0x13, 0x14) if q else (0x00, 0x01, 0x02, 0x03, 0x06, 0x08, 0x12, 0x13, 0x14, 0x7F, 0x80)):
         out.append(Inst(layer_noise, dict(n=(1 if t == 0x01 else 2) if q else (2 if t == 0x01 else 3), first=[1, 0x80, t]),
                         budget=80 if q else 600,
                         label="network-message-%02x" % t))
@@ -649,6 +744,8 @@ def instances(tier):
     for seg in ("noSegmentation", "segmentedReceive", "segmentedTransmit", "segmentedBoth"):
         out.append(Inst(long_answer, dict(seg=seg), budget=120 if q else 300, path_timeout=60))
     out.append(Inst(half_read, {}, budget=200 if q else 600, path_timeout=60))
+    out.append(Inst(known_client, {}, budget=200 if q else 600, path_timeout=60))
+    out.append(Inst(same_id_clients, {}, budget=120 if q else 300, path_timeout=60))
     for which in ODD:
         out.append(Inst(odd_requests, dict(which=which), budget=120 if q else 300, path_timeout=60))
     if not q:
